@@ -268,6 +268,15 @@ func One(m OM, concrete bool) {
 		}
 		vals = []string{string(vb[0:1]), string(vb[1:2])}
 	}
+	// read-only traffic from a second goroutine when a lock-discipline violation is replayed under the race detector
+	v.RaceProbe(func() {
+		m.Len()
+		m.Has(keys[0])
+		m.Get(keys[1])
+		m.GetValue(keys[2])
+		m.EachSafe(func(k, val string) {})
+		m.Find(func(k, val string) bool { return false })
+	})
 	r := &ref{}
 	st := states[v.Choose(0, len(states)-1)]
 	for _, ki := range st {
